@@ -105,3 +105,33 @@ package bill
 //@   footprint t
 //@   ensures t.Sum == zero && t.Total == zero && t.Tax == zero && t.TotalWithTax == zero && t.Payable == zero && t.Discount == nil && t.Charge == nil && t.TaxIncluded == nil && t.Taxes == nil && t.Advances == nil && t.Due == nil
 //@   ensures [rounding] t.Rounding == old(t.Rounding)
+//
+// ---- C17: Invert negates every signed input before recalculating
+//@ pred distinctLines(ls []*Line) bool = (forall i int :: 0 <= i && i < len(ls) ==> ls[i] != nil && (forall j int :: 0 <= j && j < len(ls[i].Discounts) ==> ls[i].Discounts[j] != nil) && (forall j int :: 0 <= j && j < len(ls[i].Charges) ==> ls[i].Charges[j] != nil)) && (forall i int, j int :: 0 <= i && i < j && j < len(ls) ==> ls[i] != ls[j])
+//@ pred distinctCharges(cs []*Charge) bool = (forall i int :: 0 <= i && i < len(cs) ==> cs[i] != nil) && (forall i int, j int :: 0 <= i && i < j && j < len(cs) ==> cs[i] != cs[j])
+//@ pred distinctDiscounts(ds []*Discount) bool = (forall i int :: 0 <= i && i < len(ds) ==> ds[i] != nil) && (forall i int, j int :: 0 <= i && i < j && j < len(ds) ==> ds[i] != ds[j])
+//@ pred distinctAdvances(as []*pay.Advance) bool = (forall i int :: 0 <= i && i < len(as) ==> as[i] != nil) && (forall i int, j int :: 0 <= i && i < j && j < len(as) ==> as[i] != as[j])
+//
+//@ func (inv *Invoice) Invert() (err)
+//@   requires inv != nil && inv.Totals != nil && distinctLines(inv.Lines) && distinctCharges(inv.Charges) && distinctDiscounts(inv.Discounts)
+//@   requires inv.Payment != nil ==> distinctAdvances(inv.Payment.Advances)
+//@   modifies *
+//@   at-call Invoice).Calculate assert [quantities] forall i int :: 0 <= i && i < len(inv.Lines) ==> inv.Lines[i].Quantity == old(num.neg(inv.Lines[i].Quantity))
+//@   at-call Invoice).Calculate assert [charges] forall i int :: 0 <= i && i < len(inv.Charges) ==> inv.Charges[i].Amount == old(num.neg(inv.Charges[i].Amount))
+//@   at-call Invoice).Calculate assert [discounts] forall i int :: 0 <= i && i < len(inv.Discounts) ==> inv.Discounts[i].Amount == old(num.neg(inv.Discounts[i].Amount))
+//@   at-call Invoice).Calculate assert [advances] inv.Payment != nil ==> (forall i int :: 0 <= i && i < len(inv.Payment.Advances) ==> inv.Payment.Advances[i].Amount == old(num.neg(inv.Payment.Advances[i].Amount)))
+//@   loop 1 invariant inv.Lines == old(inv.Lines) && inv.Charges == old(inv.Charges) && inv.Discounts == old(inv.Discounts) && inv.Payment == old(inv.Payment)
+//@   loop 1 invariant forall i int :: 0 <= i && i < idx ==> inv.Lines[i].Quantity == old(num.neg(inv.Lines[i].Quantity))
+//@   loop 1 invariant forall i int :: idx <= i && i < len(inv.Lines) ==> inv.Lines[i].Quantity == old(inv.Lines[i].Quantity)
+//@   loop 4 invariant forall i int :: 0 <= i && i < idx ==> inv.Charges[i].Amount == old(num.neg(inv.Charges[i].Amount))
+//@   loop 4 invariant forall i int :: idx <= i && i < len(inv.Charges) ==> inv.Charges[i].Amount == old(inv.Charges[i].Amount)
+//@   loop 5 invariant forall i int :: 0 <= i && i < idx ==> inv.Discounts[i].Amount == old(num.neg(inv.Discounts[i].Amount))
+//@   loop 5 invariant forall i int :: idx <= i && i < len(inv.Discounts) ==> inv.Discounts[i].Amount == old(inv.Discounts[i].Amount)
+//@   loop 6 invariant forall i int :: 0 <= i && i < idx ==> inv.Payment.Advances[i].Amount == old(num.neg(inv.Payment.Advances[i].Amount))
+//@   loop 6 invariant forall i int :: idx <= i && i < len(inv.Payment.Advances) ==> inv.Payment.Advances[i].Amount == old(inv.Payment.Advances[i].Amount)
+//
+//@ func (inv *Invoice) Calculate() (err)
+//@   trusted the whole calculation pipeline (normalisers, calculate, scenarios); only 'success leaves totals' is assumed here
+//@   requires inv != nil
+//@   modifies *
+//@   ensures err == nil ==> inv.Totals != nil
